@@ -1,17 +1,14 @@
 (* Name bookkeeping of the simplifier model: what [simp] does to the names that occur in a query.
 
+   - [binds y e]: [y] is a lambda parameter somewhere in [e]; [mentions y e = occurs y e || binds y e];
    - [below c e]: no fresh name [arg_N] with [N >= c] is mentioned in [e] (as a name or as a lambda
      parameter) - the library's reserved name space, relative to the counter;
-   - a stack is [stack_ok c st] when its keys are fresh names below [c] and its definitions are
-     below [c], mention no key and are first-order;
-   - [fo e] (first-order): no lambda parameter is used as a callee name in its body;
-   - [binds y e]: [y] is a lambda parameter somewhere in [e].
+   - [bok B e]: the backend gives no meaning, as a function name, to any lambda parameter of [e];
+   - what [rename] and [make_args_unique] do to [binds], [mentions] and [below].
 
-   Theorem [simp_inv]: if the query is below the counter, first-order and binds no stack key, then
-   so is the output for the new counter, the counter only grows, and the output mentions no stack
-   key at all (so visiting it again under the same stack substitutes nothing).  This is invariant
-   I1-I4 of DESIGN.md section 4 (C02), for the repaired algorithm. *)
-From FA.Base Require Import PyAst Induct Value Traverse Names.
+   Used by Proofs/SimplifySound.v (whole-algorithm semantic preservation, DESIGN.md section 4, C02:
+   invariants I1-I4 for the repaired algorithm). *)
+From FA.Base Require Import PyAst Induct Value Eval Traverse Names.
 From FA.Gen Require Import TablesSimp.
 From FA.Model Require Import Simplify.
 From FA.Proofs Require Import TraverseFacts SimplifyFacts EvalAgree RenameSem SimplifyTotal.
@@ -288,4 +285,18 @@ Proof.
   rewrite mau_eq. cbn [fst binds]. rewrite binds_rename. intros H. apply orb_true_iff in H. destruct H as [H|H]; [|left; exact H].
   right. apply existsb_exists in H. destruct H as (z & Hz & Heq). apply String.eqb_eq in Heq; subst z.
   apply in_fresh_names in Hz. exact Hz.
+Qed.
+
+(* ---------- binders the backend knows nothing about ---------- *)
+
+Definition bok (B : backend) (e : expr) : Prop := forall y, binds y e = true -> nofun B y.
+
+Lemma bok_child B e x : In x (children e) -> bok B e -> bok B x.
+Proof. intros Hin H y Hy. apply H. eapply binds_child; eassumption. Qed.
+
+Lemma bok_lambda B ps b : bok B (Lambda ps b) -> (forall p, In p ps -> nofun B p) /\ bok B b.
+Proof.
+  intros H. split.
+  - intros p Hp. apply H. cbn [binds]. apply orb_true_iff. left. apply existsb_exists. exists p. split; [assumption | apply String.eqb_refl].
+  - intros y Hy. apply H. cbn [binds]. rewrite Hy. apply orb_true_r.
 Qed.
